@@ -245,9 +245,16 @@ def unhx(s):
 # ----------------------------------------------------------------------------- known findings
 
 def load_known():
-    if not os.path.exists(KNOWN):
-        return []
-    return json.load(open(KNOWN)).get("findings", [])
+    """known_findings.json (+ per-property files under known_findings.d/): committed, never written at run time."""
+    res = []
+    if os.path.exists(KNOWN):
+        res += json.load(open(KNOWN)).get("findings", [])
+    d = os.path.join(VERIF, "known_findings.d")
+    if os.path.isdir(d):
+        for f in sorted(os.listdir(d)):
+            if f.endswith(".json"):
+                res += json.load(open(os.path.join(d, f))).get("findings", [])
+    return res
 
 
 # ----------------------------------------------------------------------------- context
